@@ -28,3 +28,6 @@ impl<'a, T: ExactSizeIterator<Item = &'a LhsValue<'a>>> ExactSizeIterator for As
         self.0.len()
     }
 }
+
+#[cfg(kani)]
+pub(crate) mod verif_kani;
